@@ -41,7 +41,7 @@ Bounded == Len(f.content) <= MaxLen /\ f.cur <= MaxLen + 1
 
 (* ---- refinement ---------------------------------------------------------------------- *)
 \* same results from every call
-SameResults == ~wild => dr.n = ir.n /\ dr.err = ir.err /\ dr.eofs = ir.eofs /\ dr.data = ir.data /\ dr.ret = ir.ret
+SameResults == ~wild => ~dr.any /\ dr.n = ir.n /\ dr.err = ir.err /\ dr.eofs = ir.eofs /\ dr.data = ir.data /\ dr.ret = ir.ret
 \* flushing the buffer at writeStart always yields the file; Size(), the position and the place
 \* where the next Write lands agree with the file model
 P == DProbes(Devs, d)
